@@ -1,0 +1,148 @@
+//! Verification seam, compiled only with `--cfg gamedig_verif`.
+//!
+//! Replaces `std::net` inside `socket.rs` (and the transport inside `http.rs`)
+//! with a [Backend] installed per thread by a simulator. Without the cfg flag
+//! this module does not exist and nothing in the crate changes.
+
+use std::cell::RefCell;
+use std::io;
+use std::net::SocketAddr;
+use std::time::Duration;
+
+pub use crate::socket::{Socket, TcpSocketImpl, UdpSocketImpl};
+
+/// The operating-system surface `socket.rs` and `http.rs` rely on.
+pub trait Backend {
+    fn udp_bind(&mut self, local: SocketAddr) -> io::Result<u64>;
+    fn udp_send_to(&mut self, s: u64, data: &[u8], to: SocketAddr) -> io::Result<usize>;
+    fn udp_recv_from(&mut self, s: u64, buf: &mut [u8]) -> io::Result<(usize, SocketAddr)>;
+    fn tcp_connect(&mut self, to: SocketAddr, timeout: Option<Duration>) -> io::Result<u64>;
+    fn tcp_write(&mut self, s: u64, data: &[u8]) -> io::Result<usize>;
+    fn tcp_read(&mut self, s: u64, buf: &mut [u8]) -> io::Result<usize>;
+    fn set_read_timeout(&mut self, s: u64, t: Option<Duration>) -> io::Result<()>;
+    fn set_write_timeout(&mut self, s: u64, t: Option<Duration>) -> io::Result<()>;
+    fn close(&mut self, s: u64);
+    /// `None` means "no HTTP stub": the real transport is used.
+    fn http_request(
+        &mut self,
+        method: &str,
+        url: &str,
+        headers: &[(String, String)],
+    ) -> Option<io::Result<Vec<u8>>>;
+}
+
+thread_local! {
+    static BACKEND: RefCell<Option<Box<dyn Backend>>> = const { RefCell::new(None) };
+}
+
+/// Install the backend used by every socket created on this thread.
+pub fn install(backend: Box<dyn Backend>) { BACKEND.with(|b| *b.borrow_mut() = Some(backend)); }
+
+/// Remove the backend; afterwards every socket call fails with an error.
+pub fn uninstall() -> Option<Box<dyn Backend>> { BACKEND.with(|b| b.borrow_mut().take()) }
+
+fn no_backend() -> io::Error { io::Error::new(io::ErrorKind::Other, "gamedig_verif: no backend installed") }
+
+fn with<T>(f: impl FnOnce(&mut dyn Backend) -> io::Result<T>) -> io::Result<T> {
+    BACKEND.with(|b| {
+        match b.borrow_mut().as_mut() {
+            Some(backend) => f(backend.as_mut()),
+            None => Err(no_backend()),
+        }
+    })
+}
+
+pub(crate) fn http_request(
+    method: &str,
+    url: &str,
+    headers: &[(String, String)],
+) -> Option<io::Result<Vec<u8>>> {
+    BACKEND.with(|b| {
+        match b.borrow_mut().as_mut() {
+            Some(backend) => backend.http_request(method, url, headers),
+            None => Some(Err(no_backend())),
+        }
+    })
+}
+
+/// Stand-in for the parts of `std::net` that `socket.rs` uses.
+pub mod net {
+    use super::with;
+    use std::io::{self, Read, Write};
+    use std::net::{SocketAddr, ToSocketAddrs};
+    use std::time::Duration;
+
+    pub struct UdpSocket(u64);
+
+    impl UdpSocket {
+        pub fn bind<A: ToSocketAddrs>(addr: A) -> io::Result<Self> {
+            let local = addr
+                .to_socket_addrs()?
+                .next()
+                .ok_or_else(|| io::Error::new(io::ErrorKind::InvalidInput, "no address"))?;
+            with(|b| b.udp_bind(local)).map(Self)
+        }
+
+        pub fn send_to(&self, data: &[u8], to: SocketAddr) -> io::Result<usize> {
+            with(|b| b.udp_send_to(self.0, data, to))
+        }
+
+        pub fn recv_from(&self, buf: &mut [u8]) -> io::Result<(usize, SocketAddr)> {
+            with(|b| b.udp_recv_from(self.0, buf))
+        }
+
+        pub fn set_read_timeout(&self, t: Option<Duration>) -> io::Result<()> {
+            with(|b| b.set_read_timeout(self.0, t))
+        }
+
+        pub fn set_write_timeout(&self, t: Option<Duration>) -> io::Result<()> {
+            with(|b| b.set_write_timeout(self.0, t))
+        }
+    }
+
+    impl Drop for UdpSocket {
+        fn drop(&mut self) {
+            let _ = with(|b| {
+                b.close(self.0);
+                Ok(())
+            });
+        }
+    }
+
+    pub struct TcpStream(u64);
+
+    impl TcpStream {
+        pub fn connect(addr: &SocketAddr) -> io::Result<Self> { with(|b| b.tcp_connect(*addr, None)).map(Self) }
+
+        pub fn connect_timeout(addr: &SocketAddr, timeout: Duration) -> io::Result<Self> {
+            with(|b| b.tcp_connect(*addr, Some(timeout))).map(Self)
+        }
+
+        pub fn set_read_timeout(&self, t: Option<Duration>) -> io::Result<()> {
+            with(|b| b.set_read_timeout(self.0, t))
+        }
+
+        pub fn set_write_timeout(&self, t: Option<Duration>) -> io::Result<()> {
+            with(|b| b.set_write_timeout(self.0, t))
+        }
+    }
+
+    impl Read for TcpStream {
+        fn read(&mut self, buf: &mut [u8]) -> io::Result<usize> { with(|b| b.tcp_read(self.0, buf)) }
+    }
+
+    impl Write for TcpStream {
+        fn write(&mut self, data: &[u8]) -> io::Result<usize> { with(|b| b.tcp_write(self.0, data)) }
+
+        fn flush(&mut self) -> io::Result<()> { Ok(()) }
+    }
+
+    impl Drop for TcpStream {
+        fn drop(&mut self) {
+            let _ = with(|b| {
+                b.close(self.0);
+                Ok(())
+            });
+        }
+    }
+}
